@@ -18,5 +18,5 @@ git apply -R $out/patch.diff && ( eval "$cmd" 2>&1 | grep -E "^test result|FAILE
 echo "## 4. our checks on /repo + patch"
 git -C /repo apply $out/patch.diff || { echo "patch does not apply to /repo"; exit 2; }
 for p in "$@"; do /verif/run.sh $p quick 2>/dev/null | grep -E "VIOLATION|sub-check|tier=" | cut -c1-400; done
-git -C /repo checkout -- .
+git -C /repo checkout -- . && git -C /repo clean -fdq
 git -C /repo status --short
